@@ -24,12 +24,22 @@
 //   - Trace.Outputs: ecbbot  [1] = "pads=<sha256 of all 2·Xi·L sender messages>",
 //     [2] = "chosen=<sha256 of the Xi·L receiver messages>";  rvole-bbot  [1] = "c=<hex>,..",
 //     [2] = "b=<hex>;d=<hex>,..".
+//   - Kind "softspoken-ext": the SoftSpoken OT extension pkg/ot/extension/softspoken on its own.
+//     Party 1 is the extension RECEIVER (Receiver.Round1), party 2 the extension sender
+//     (Sender.Round2).  Choice bits (Xi/8 bytes) from vh.NewRng(Seed, Prop, "choices", 0), the
+//     base-OT seeds (Kappa pairs of 32 bytes and the sender's Kappa choice bits) from
+//     vh.NewRng(Seed, Prop, "base-seeds", 0), contexts as above: everything but the tapes is fixed.
+//     Message: round 1: 1->2 Round1P2P.  Outputs [1] = "chosen=<sha256 of the receiver messages>",
+//     [2] = "pads=<sha256 of the sender messages>".
+//   - cfg.Flip, if set, XORs 0xff into the bytes of the given party's tape in the stream range
+//     [Off, Off+N) (a tape that differs from the unflipped one in exactly one segment).
 //   - k256 only; no `testing` import; deterministic.
 package otvole
 
 import (
 	"crypto/sha256"
 	"fmt"
+	"io"
 	"math/big"
 	"strings"
 
@@ -38,7 +48,10 @@ import (
 	rvole_bbot "github.com/bronlabs/bron-crypto/pkg/mpc/rvole/bbot"
 	rsess "github.com/bronlabs/bron-crypto/pkg/mpc/session"
 	"github.com/bronlabs/bron-crypto/pkg/mpc/sharing"
+	"github.com/bronlabs/bron-crypto/pkg/ot"
 	"github.com/bronlabs/bron-crypto/pkg/ot/base/ecbbot"
+	"github.com/bronlabs/bron-crypto/pkg/ot/base/vsot"
+	"github.com/bronlabs/bron-crypto/pkg/ot/extension/softspoken"
 
 	"verif/harness/internal/drive"
 	"verif/harness/internal/vh"
@@ -50,9 +63,33 @@ type Config struct {
 	Prop   string
 	Labels map[sharing.ID]string
 	Hook   drive.Hook
-	Kind   string // "ecbbot" | "rvole-bbot"
+	Kind   string // "ecbbot" | "rvole-bbot" | "softspoken-ext"
+	Flip   *Flip  // optional: flip one segment of one party's tape
 	Xi     int    // ecbbot: batch size (multiple of 8)
 	L      int    // ecbbot: block length; rvole-bbot: vector length
+}
+
+// Flip names one segment of one party's random stream.
+type Flip struct {
+	Party  sharing.ID
+	Off, N int
+}
+
+type flipReader struct {
+	src    io.Reader
+	pos    int
+	off, n int
+}
+
+func (f *flipReader) Read(p []byte) (int, error) {
+	n, err := f.src.Read(p)
+	for i := 0; i < n; i++ {
+		if q := f.pos + i; q >= f.off && q < f.off+f.n {
+			p[i] ^= 0xff
+		}
+	}
+	f.pos += n
+	return n, err
 }
 
 // Result is the typed outcome.
@@ -61,6 +98,9 @@ type Result struct {
 	Order    *big.Int
 	SetupErr string
 	BaseMul  func(k *big.Int) []byte // compressed k·G on k256
+	// softspoken-ext: the fixed public inputs of the run (session id, base-OT seed pairs)
+	Sid    []byte
+	M0, M1 [][]byte
 }
 
 func contexts(seed int64, prop string) (map[sharing.ID]*rsess.Context, error) {
@@ -84,7 +124,11 @@ func tapes(tr *drive.Trace, cfg Config) {
 		if l, ok := cfg.Labels[id]; ok && l != "" {
 			label = l
 		}
-		t := drive.NewTape(vh.NewRng(cfg.Seed, cfg.Prop, "tape/"+label, int(id)))
+		var src io.Reader = vh.NewRng(cfg.Seed, cfg.Prop, "tape/"+label, int(id))
+		if cfg.Flip != nil && cfg.Flip.Party == id {
+			src = &flipReader{src: src, off: cfg.Flip.Off, n: cfg.Flip.N}
+		}
+		t := drive.NewTape(src)
 		t.Mark = "new"
 		tr.Tapes[id] = t
 	}
@@ -245,6 +289,68 @@ func RunFull(cfg Config) *Result {
 			return res
 		}
 		tr.Outputs[2] = "b=" + vh.Hex(b.Bytes()) + ";d=" + scalars(d)
+	case "softspoken-ext":
+		suite, err := softspoken.NewSuite(cfg.Xi, cfg.L, sha256.New)
+		if err != nil {
+			res.SetupErr = err.Error()
+			return res
+		}
+		choices := vh.NewRng(cfg.Seed, cfg.Prop, "choices", 0).Bytes(cfg.Xi / 8)
+		br := vh.NewRng(cfg.Seed, cfg.Prop, "base-seeds", 0)
+		k := softspoken.Kappa
+		delta := br.Bytes(k / 8)
+		sSeeds := &vsot.SenderOutput{SenderOutput: ot.SenderOutput[[]byte]{Messages: make([][2][][]byte, k)}}
+		rSeeds := &vsot.ReceiverOutput{ReceiverOutput: ot.ReceiverOutput[[]byte]{Choices: append([]byte{}, delta...), Messages: make([][][]byte, k)}}
+		for i := 0; i < k; i++ {
+			m0, m1 := br.Bytes(32), br.Bytes(32)
+			res.M0, res.M1 = append(res.M0, m0), append(res.M1, m1)
+			sSeeds.Messages[i][0], sSeeds.Messages[i][1] = [][]byte{m0}, [][]byte{m1}
+			if (delta[i/8]>>(i%8))&1 == 1 {
+				rSeeds.Messages[i] = [][]byte{m1}
+			} else {
+				rSeeds.Messages[i] = [][]byte{m0}
+			}
+		}
+		sid := ctxs[1].SessionID()
+		res.Sid = append([]byte{}, sid[:]...)
+		var rcv *softspoken.Receiver
+		var snd *softspoken.Sender
+		drive.Step(tr, 1, 0, func() (err error) { rcv, err = softspoken.NewReceiver(ctxs[1], sSeeds, suite, tr.Tapes[1]); return })
+		drive.Step(tr, 2, 0, func() (err error) { snd, err = softspoken.NewSender(ctxs[2], rSeeds, suite, tr.Tapes[2]); return })
+		if !alive(tr, 1) || !alive(tr, 2) {
+			return res
+		}
+		var r1 *softspoken.Round1P2P
+		var rout *softspoken.ReceiverOutput
+		mark(1, 1)
+		if drive.Step(tr, 1, 1, func() (err error) { r1, rout, err = rcv.Round1(append([]byte{}, choices...)); return }).Class != "ok" {
+			return res
+		}
+		h := sha256.New()
+		for i := range rout.Messages {
+			for l := range rout.Messages[i] {
+				h.Write(rout.Messages[i][l])
+			}
+		}
+		tr.Outputs[1] = "chosen=" + vh.Hex(h.Sum(nil))
+		in1, ok := pass(tr, cfg.Hook, 1, 1, r1)
+		if !ok {
+			return res
+		}
+		var sout *softspoken.SenderOutput
+		mark(2, 2)
+		if drive.Step(tr, 2, 2, func() (err error) { sout, err = snd.Round2(in1); return }).Class != "ok" {
+			return res
+		}
+		h = sha256.New()
+		for i := range sout.Messages {
+			for c := 0; c < 2; c++ {
+				for l := range sout.Messages[i][c] {
+					h.Write(sout.Messages[i][c][l])
+				}
+			}
+		}
+		tr.Outputs[2] = "pads=" + vh.Hex(h.Sum(nil))
 	default:
 		res.SetupErr = "unknown kind " + cfg.Kind
 	}
